@@ -177,8 +177,7 @@ def check(run):
     for k in (1, 300, len(cases) - 1):
         run.sample({"case": cases[k][:200], "model": mo[k][:160], "impl": io[k][:160]})
     report_diffs(run, diffs, "coq/Codec.v", "zvt_builder framing / derive", "codec")
-    if any(not v.get("no_failing_input_found") for v in run.violations):
-        run.violations = [v for v in run.violations if not v.get("no_failing_input_found")]
+    vlib.prefer_concrete(run)
     return vlib.finish(run, trusted_base=TB, assumptions=["64-bit usize"])
 
 
